@@ -113,14 +113,16 @@ func (z *zipkinDecoderV2) decodeSpan(rawSpan jx.Raw) error {
 			if err != nil {
 				return err
 			}
-			z.serviceName = serviceName
+			if serviceName != "" {
+				z.serviceName = serviceName
+			}
 			return nil
 		case "remoteEndpoint":
 			serviceName, err := z.parseEndpoint(d, "remote_endpoint_")
 			if err != nil {
 				return err
 			}
-			if z.serviceName != "" {
+			if z.serviceName == "" {
 				z.serviceName = serviceName
 			}
 			return nil
